@@ -259,7 +259,7 @@ var deadPorts = []int{1, 2, 3, 4, 5, 6, 8, 10, 12, 14, 16}
 
 var destRanges = map[string][2]int{
 	"flush": {50, 60000}, "reconn": {300, 600000}, "connbuf": {2, 200000}, "iobuf": {16, 4000000},
-	"spoolbuf": {2, 30000}, "spoolmaxbytesperfile": {1000, 500000000}, "spoolsyncevery": {2, 100000},
+	"spoolbuf": {2, 3000}, "spoolmaxbytesperfile": {1000, 500000000}, "spoolsyncevery": {2, 100000},
 	"spoolsyncperiod": {50, 60000}, "spoolsleep": {2, 100000}, "unspoolsleep": {2, 100000},
 }
 
@@ -308,7 +308,7 @@ func (g *gen) carbonRoute(allowSpoolTrue bool) RouteSpec {
 }
 
 var gnRanges = map[string][2]int{
-	"concurrency": {2, 3}, "bufSize": {1000, 90000}, "flushMaxNum": {10, 20000}, "flushMaxWait": {150, 5000},
+	"concurrency": {2, 3}, "bufSize": {100, 6000}, "flushMaxNum": {10, 20000}, "flushMaxWait": {150, 5000},
 	"timeout": {3000, 60000}, "orgId": {2, 1000}, "errBackoffMin": {10, 5000},
 }
 
@@ -328,8 +328,8 @@ func (g *gen) gnRoute(srvURL, schemas, aggs string, allowBigDefaults bool) Route
 	var opts []Opt
 	for _, o := range oracle.CfgGrafanaNet {
 		set := g.r.Intn(4) < density
-		if (o.Name == "concurrency" || o.Name == "bufSize") && !allowBigDefaults {
-			set = true
+		if o.Name == "concurrency" || o.Name == "bufSize" {
+			set = !allowBigDefaults
 		}
 		if !set {
 			continue
@@ -1607,7 +1607,7 @@ func main() {
 
 	// part 1. The cases are independent (one table each), so several are built at a time: the
 	// command tokenizer of the code under test needs 0.1-0.5 s of CPU per long command under -race.
-	n := mon.N(320, 10000)
+	n := mon.N(200, 5000)
 	ngn := mon.N(24, 64)
 	if v, err := strconv.Atoi(os.Getenv("C20_N")); err == nil && v > 0 { // development aid only
 		n = v
